@@ -40,12 +40,16 @@ def paths_for(seed):
     return out
 
 
-HOSTS = {"standard": ["-m", "mae", "-x", "leadtime"], "map": ["-m", "mae", "-type", "map"], "multi": ["-m", "pithist"]}
+HOSTS = {"standard": ["-m", "mae", "-x", "leadtime"], "map": ["-m", "mae", "-type", "map"], "multi": ["-m", "pithist"],
+         # location-related hosts (only the location annotation fields are checked on them)
+         "standard-loc": ["-m", "mae", "-x", "location"], "mapimpact": ["-m", "mae", "-type", "mapimpact"], "obsfcst-loc": ["-m", "obsfcst", "-x", "location"]}
 
 
 def main_axes(fig, host):
     if host == "map":
         return [ax for ax in fig.axes if ax.collections and ax.get_label() != "<colorbar>"][:2]
+    if host == "mapimpact":
+        return [ax for ax in fig.axes if ax.collections and ax.get_label() != "<colorbar>"][:1]
     if host == "multi":
         return [ax for ax in fig.axes if ax.patches]
     return fig.axes[:1]
@@ -197,6 +201,13 @@ def OPTIONS():
         return None if txt and all(len(t) == 1 for t in txt) else "annotation fields %r" % txt[:3]
     add("-af", ["-a", "-af", "score"], ("standard",), each_axis(af))
 
+    def af_location(ax, f, h, i):
+        # 'lat,lon,elev,location' are documented annotation fields for maps and location-related x-axes
+        want = set("%g %g %g %g" % (l[1], l[2], l[3], l[0]) for l in gen.std_locs(3, core.seed()))
+        got = set(t.get_text().strip() for t in ax.texts)
+        return None if got == want else "annotation texts %r, expected %r" % (sorted(got)[:3], sorted(want)[:3])
+    add("-af-location", ["-a", "-af", "lat,lon,elev,location"], ("map", "standard-loc", "mapimpact", "obsfcst-loc"), each_axis(af_location))
+
     def clim(fig, h, i):
         out = []
         for ax in main_axes(fig, h):
@@ -231,7 +242,7 @@ def run_host(host, tokens, seed, ext="png"):
 def h_single(ctx):
     seed = core.seed()
     opts = OPTIONS()
-    host = ctx.choose("host", ("standard", "map", "multi"), free=True)
+    host = ctx.choose("host", ("standard", "map", "multi", "standard-loc", "mapimpact", "obsfcst-loc"), free=True)
     cand = [o for o in opts if host in o[2]]
     o = ctx.choose("option", cand, free=True)
     name, tokens, hosts, fn = o
@@ -319,7 +330,7 @@ def run(tier, only=None):
             continue
         t0 = time.time()
         st = explore.explore(h, mode="full", repo_root=core.REPO, time_cap=(500 if tier == "quick" else 3000))
-        bound = {"single": "every option on every host it applies to (standard plot, map, pithist)", "pairs": "all pairs of options on the standard plot",
+        bound = {"single": "every option on every host it applies to (standard plot, map, pithist; location annotation fields also on -x location, mapimpact, obsfcst -x location)", "pairs": "all pairs of options on the standard plot",
                  "formats": "5 file extensions x 2 hosts"}[name]
         subs.append(core.Sub.from_e1(name, st, bound=bound, rule="one execution = one figure; the documented figure property of every option present is read back", min_outcomes=1,
                                      wall=time.time() - t0))
